@@ -1,4 +1,6 @@
 """C29 -- the backward-compatibility linter accepts the documented safe schema evolutions."""
+import json
+
 from vlib import *
 import lint_lib as L
 
@@ -47,8 +49,11 @@ def gen_ops(ctx):
         return []
     ctx.notes["dropped_not_individually_valid"] = dropped
     # the real binary on the samples and a few random pairs
-    sel = [o for o in ops if o[1].startswith("sample") and o[2]["mode"] == "pair"] + \
-          [o for o in ops if not o[1].startswith("sample")][:: max(1, len(ops) // 10)]
+    samp = [o for o in ops if o[1].startswith("sample") and o[2]["mode"] == "pair"]
+    rnd_ = [o for o in ops if not o[1].startswith("sample")]
+    if quick:   # one process start per pair: a handful in the quick tier, all samples in the thorough one
+        samp = samp[:: max(1, len(samp) // 3)][:3]
+    sel = samp + rnd_[:: max(1, len(rnd_) // (6 if quick else 40))]
     for o in sel:
         ctx._lint["cli"].append((o, L.cli_verdict(ctx, o[2]["old"], o[2]["new"])))
     ctx._lint["go"] = go
@@ -61,6 +66,14 @@ def go_runner(ctx, lines):
     return ctx._lint["go"], ""
 
 
+def replay_text(data):
+    """the failing pair itself (the scratch files are gone after the run)"""
+    try:
+        return f"{data['mode']} {data['old']} {data['new']} OLD={json.dumps(Path(data['old']).read_text())} NEW={json.dumps(Path(data['new']).read_text())}"
+    except OSError:
+        return f"{data['mode']} {data['old']} {data['new']}"
+
+
 def oracle(ctx, ops, go_out):
     """every documented safe evolution (and every schema against itself) must be accepted"""
     bad = []
@@ -68,7 +81,7 @@ def oracle(ctx, ops, go_out):
     for (op, kind, data), out in zip(ops, go_out):
         if out != "accept":
             k = kind if kind.startswith("sample") else kind.split(":")[0] + ":" + (kind.split(":")[1] if ":" in kind else "")
-            bad.append((f"{data['mode']} {data['old']} {data['new']}", kind, out, f"C29:not-accepted:{k}:{out.replace(' ', ':')}"))
+            bad.append((replay_text(data), kind, out, f"C29:not-accepted:{k}:{out.replace(' ', ':')}"))
     for o, v in ctx._lint["cli"]:
         hv = idx[id(o)]
         if v.replace(" -", "") != hv:
